@@ -120,6 +120,7 @@ func (r *Reporter) Finish(coverage map[string]any) int {
 	}
 	sort.Strings(sigs)
 	newViol := 0
+	var lines []string
 	knownLines := map[int]bool{}
 	total := 0
 	var sigSummary []map[string]any
@@ -137,7 +138,7 @@ func (r *Reporter) Finish(coverage map[string]any) int {
 		if matched >= 0 {
 			if !knownLines[matched] {
 				knownLines[matched] = true
-				fmt.Printf("KNOWN-FINDING: property=%s %s\n", r.Property, r.findings[matched].What)
+				lines = append(lines, fmt.Sprintf("KNOWN-FINDING: property=%s %s", r.Property, r.findings[matched].What))
 			}
 			continue
 		}
@@ -149,8 +150,8 @@ func (r *Reporter) Finish(coverage map[string]any) int {
 		path := filepath.Join(dir, fmt.Sprintf("%s-%x.json", r.Property, sum[:6]))
 		b, _ := json.MarshalIndent(map[string]any{"violation": v, "occurrences": len(vs)}, "", " ")
 		_ = os.WriteFile(path, b, 0o644)
-		fmt.Printf("VIOLATION property=%s replay=%s\n", r.Property, path)
-		fmt.Printf("  signature: %s\n  detail: %s\n", s, firstLine(v.Detail))
+		lines = append(lines, fmt.Sprintf("VIOLATION property=%s replay=%s", r.Property, path))
+		lines = append(lines, fmt.Sprintf("  signature: %s\n  detail: %s", s, firstLine(v.Detail)))
 		newViol++
 	}
 	coverage["violation_signatures"] = sigSummary
@@ -171,6 +172,9 @@ func (r *Reporter) Finish(coverage map[string]any) int {
 	if err := os.WriteFile(filepath.Join(dir, r.Property+".json"), b, 0o644); err != nil {
 		fmt.Fprintf(os.Stderr, "cannot write evidence: %v\n", err)
 		return 2
+	}
+	for _, l := range lines {
+		fmt.Println(l)
 	}
 	if newViol > 0 {
 		return 1
